@@ -93,7 +93,9 @@ def abstract(draw):
                 period_spell=draw(st.sampled_from(["int", "list"])), reference=draw(st.booleans()),
                 seed=draw(st.integers(0, 10**6)), dtype=draw(st.sampled_from(["f8", "f4"])),
                 v2_variant=draw(st.sampled_from(["omit", "empty"])), native_dates=draw(st.booleans()),
-                grid_variant=draw(st.sampled_from(["omit", "module_only", "empty"])))
+                grid_variant=draw(st.sampled_from(["omit", "module_only", "empty"])),
+                # grid and forcing classes from a user's module (a file given by path) instead of ladim.ROMS
+                plug_gf=draw(st.sampled_from([False, False, True])))
 
 
 def build_files(d, a):
@@ -141,8 +143,17 @@ def build_files(d, a):
                 "Z": repr(r["z"]), "mult": r["mult"], "X0": repr(i + r["fx"]), "kind": r["kind"]}
         lines.append([vals[c] for c in cols])
     e2e.write_release(d / "rel.rls", lines, cols, header=False)
+    gfmod = "ladim.ROMS"
+    if a.get("plug_gf"):
+        # a grid whose metric differs observably from the stock grid's, so that a run that silently falls
+        # back to ladim.ROMS for the grid gives other trajectories
+        (d / "vroms_plug.py").write_text(
+            "import ladim.ROMS\n\n\nclass Grid(ladim.ROMS.Grid):\n    def metric(self, X, Y):\n"
+            "        dx, dy = super().metric(X, Y)\n        return 2.0 * dx, 2.0 * dy\n\n\n"
+            "class Forcing(ladim.ROMS.Forcing):\n    pass\n", encoding="utf-8")
+        gfmod = str(d / "vroms_plug.py")
     return dict(start=start, stop=stop, pattern=pattern, files=files, gridfile=gridfile, cols=cols,
-                first_file=str(sorted(files)[0]))
+                first_file=str(sorted(files)[0]), gfmod=gfmod)
 
 
 def render(a, F, d, spelling, out):
@@ -169,7 +180,8 @@ def render(a, F, d, spelling, out):
         c = {
             "time_control": {"start_time": start, "stop_time": stop},
             "files": {"particle_release_file": str(d / "rel.rls"), "output_file": str(d / out)},
-            "gridforce": {"module": "ladim1.gridforce.ROMS", "input_file": F["pattern"]},
+            "gridforce": {"module": "ladim1.gridforce.ROMS" if F["gfmod"] == "ladim.ROMS" else F["gfmod"],
+                          "input_file": F["pattern"]},
             "particle_release": {"variables": F["cols"], "particle_variables": pvars},
             "output_variables": {"outper": per, "instance": ivars, "particle": pvars, "format": "NETCDF4"},
             "numerics": {"dt": DT, "advection": a["advection"], "diffusion": 0.0},
@@ -203,7 +215,7 @@ def render(a, F, d, spelling, out):
     # version 2
     c = {"version": 2,
          "time": {"start": start, "stop": stop, "dt": DT},
-         "forcing": {"module": "ladim.ROMS", "filename": F["pattern"]},
+         "forcing": {"module": F["gfmod"], "filename": F["pattern"]},
          "tracker": {"advection": a["advection"]},
          "release": {"release_file": str(d / "rel.rls"), "names": F["cols"]},
          "output": {"filename": str(d / out), "output_period": per, "ncargs": {"data_model": "NETCDF4"},
@@ -217,9 +229,11 @@ def render(a, F, d, spelling, out):
         grid["filename"] = F["first_file"]
     if a["sub"]:
         grid["subgrid"] = list(a["sub"])
+    # omit: no grid section unless something has to be said in it (then without a module key);
+    # empty: a grid section without a module key, possibly with no key at all; module_only: module spelled out
     if grid or a["grid_variant"] != "omit":
-        if a["grid_variant"] == "module_only" or (grid and a["grid_variant"] == "empty"):
-            grid = dict({"module": "ladim.ROMS"}, **grid)
+        if a["grid_variant"] == "module_only":
+            grid = dict({"module": F["gfmod"]}, **grid)
         c["grid"] = grid
     if a["temp"]:
         c["forcing"]["extra_forcing"] = ["temp"]
@@ -295,6 +309,8 @@ def oracle(a) -> core.CaseResult:
     res = core.CaseResult()
     res.cls("wildcard" if a["nfiles"] > 1 else "single_file")
     res.cls("gridfile" if a["gridfile"] else "grid_from_forcing")
+    if a.get("plug_gf"):
+        res.cls("user_grid_forcing_module")
     with e2e.workdir() as d:
         F = build_files(d, a)
         outs = {}
